@@ -179,12 +179,32 @@ static void RunRanges(BS & bs)
    if ((matched)&&(missed)) {vf::NonTrivial(vf::HashStr(pat, 0x51)); if (vf::WantSample()) vf::Sample("range pattern ["+pat+"]");}
 }
 
+// The law the node-tree traversal relies on (C05), on raw pattern strings: a pattern that reports itself unique matches exactly RemoveEscapeChars(pattern), and a
+// pattern that reports itself a list of unique values matches exactly its unescaped comma parts -- judged against every string of up to 3 symbols of the alphabet.
+static void RunRawUniqueness(BS & bs)
+{
+   static const char ALPHA[] = {'x', 'y', '\\', '*', '?', ','};
+   std::string p; const uint32 n = 1+bs.u8()%5; for (uint32 i=0; i<n; i++) p.push_back(ALPHA[bs.u8()%6]);
+   StringMatcher sm; if (sm.SetPattern(p.c_str()).IsError()) {vf::Count("raw_pattern_rejected"); return;}
+   const bool uniq = sm.IsPatternUnique(), list = sm.IsPatternListOfUniqueValues();
+   vf::Count("mode_raw_pattern_uniqueness"); if ((uniq == false)&&(list == false)) {vf::Count("raw_pattern_not_unique"); return;}
+   std::set<std::string> expect;
+   if (uniq) expect.insert(RemoveEscapeChars(p.c_str())());
+   else {std::string cur; bool esc = false; for (size_t i=0; i<p.size(); i++) {const char c = p[i]; if ((c == '\\')&&(esc == false)) {esc = true; continue;} if ((c == ',')&&(esc == false)) {if (cur.size()) expect.insert(cur); cur.clear();} else cur.push_back(c); esc = false;} if (esc) cur.push_back('\\'); if (cur.size()) expect.insert(cur);}
+   for (std::set<std::string>::const_iterator it = expect.begin(); it != expect.end(); ++it) if (sm.Match(it->c_str()) == false) vf::Fail("pattern [%s] reports itself %s but does not match [%s]", vf::Esc(p).c_str(), uniq ? "unique" : "a list of unique values", vf::Esc(*it).c_str());
+   std::string subj;
+   for (uint32 len=1; len<=3; len++) {uint32 total = 1; for (uint32 i=0; i<len; i++) total *= 6; for (uint32 k=0; k<total; k++) {subj.clear(); uint32 q = k; for (uint32 i=0; i<len; i++) {subj.push_back(ALPHA[q%6]); q /= 6;} if ((expect.count(subj) == 0)&&(sm.Match(subj.c_str()))) vf::Fail("pattern [%s] reports itself %s (of %s) but also matches [%s]", vf::Esc(p).c_str(), uniq ? "unique" : "a list of unique values", vf::Esc(*expect.begin()).c_str(), vf::Esc(subj).c_str());}}
+   bool meta = false; for (size_t i=0; i<p.size(); i++) if (p[i] != 'x' && p[i] != 'y') meta = true;
+   if (meta) {vf::NonTrivial(vf::HashStr(p, 99)); if (vf::WantSample()) vf::Sample("raw pattern ["+p+"] reports itself "+(uniq ? "unique" : "a list of unique values")+"; checked against 258 subjects");}
+}
+
 extern "C" int vf_run_case(const uint8_t * data, size_t size)
 {
    static CompleteSetupSystem * css = NULL; if (css == NULL) {css = new CompleteSetupSystem; SetConsoleLogLevel(MUSCLE_LOG_NONE);}
    BS bs(data, size);
    const uint8_t mode = bs.u8()%8;
    if (mode == 7) {RunRanges(bs); return 0;}
+   if (mode == 5) {RunRawUniqueness(bs); return 0;}
    if (mode == 6)
    {
       // escape law on arbitrary byte strings (no NUL): the escaped string is a pattern that matches that string and no other, and is reported unique
